@@ -4,6 +4,7 @@ package main
 // branches and from asserting calls, normalised to comparisons over terms.
 
 import (
+	"go/constant"
 	"go/token"
 	"go/types"
 	"strings"
@@ -114,6 +115,43 @@ func termOf(v ssa.Value) Term {
 	return Term{V: v}
 }
 
+// equivValue: two SSA values denote the same location/value structurally: the same value,
+// or loads of the same field / constant index of equivalent bases (go/ssa does not CSE
+// repeated selections x.f.g). As everywhere in this checker, no store to the location is
+// assumed between the two uses.
+func equivValue(a, b ssa.Value, d int) bool {
+	if a == b {
+		return true
+	}
+	if a == nil || b == nil || d > 8 {
+		return false
+	}
+	a, b = stripConv(a), stripConv(b)
+	if a == b {
+		return true
+	}
+	switch x := a.(type) {
+	case *ssa.UnOp:
+		y, ok := b.(*ssa.UnOp)
+		return ok && x.Op == y.Op && equivValue(x.X, y.X, d+1)
+	case *ssa.FieldAddr:
+		y, ok := b.(*ssa.FieldAddr)
+		return ok && x.Field == y.Field && equivValue(x.X, y.X, d+1)
+	case *ssa.Field:
+		y, ok := b.(*ssa.Field)
+		return ok && x.Field == y.Field && equivValue(x.X, y.X, d+1)
+	case *ssa.IndexAddr:
+		y, ok := b.(*ssa.IndexAddr)
+		if !ok || !equivValue(x.X, y.X, d+1) {
+			return false
+		}
+		kx, okx := constInt(x.Index)
+		ky, oky := constInt(y.Index)
+		return (okx && oky && kx == ky) || x.Index == y.Index
+	}
+	return false
+}
+
 func sameTerm(a, b Term) bool {
 	if a.IsConst || b.IsConst {
 		return a.IsConst && b.IsConst && a.K == b.K
@@ -122,9 +160,9 @@ func sameTerm(a, b Term) bool {
 		return false
 	}
 	if a.isLen() {
-		return a.LenVal == b.LenVal || (a.LenPath == b.LenPath && isPathLike(a.LenVal) && isPathLike(b.LenVal))
+		return a.LenVal == b.LenVal || equivValue(a.LenVal, b.LenVal, 0) || (a.LenPath == b.LenPath && isPathLike(a.LenVal) && isPathLike(b.LenVal))
 	}
-	return a.V == b.V || (accessPath(a.V) == accessPath(b.V) && isPathLike(a.V) && isPathLike(b.V))
+	return a.V == b.V || equivValue(a.V, b.V, 0) || (accessPath(a.V) == accessPath(b.V) && isPathLike(a.V) && isPathLike(b.V))
 }
 
 // isPathLike: the value is reached from a named variable through field selections,
@@ -469,7 +507,7 @@ func sameLenTerm(a, want Term) bool {
 	if !a.isLen() {
 		return false
 	}
-	return a.LenVal == want.LenVal || (a.LenPath == want.LenPath && isPathLike(a.LenVal) && isPathLike(want.LenVal))
+	return a.LenVal == want.LenVal || equivValue(a.LenVal, want.LenVal, 0) || (a.LenPath == want.LenPath && isPathLike(a.LenVal) && isPathLike(want.LenVal))
 }
 
 // lenLowerBoundByDef: a lower bound of len(x) known from the definition of x.
@@ -595,8 +633,35 @@ func (f *Facts) nonNegD(v ssa.Value, d int, seen map[ssa.Value]bool) bool {
 	return false
 }
 
+// appendBase: x = append(s, k elements) → (s, k).
+func appendBase(x ssa.Value) (ssa.Value, int64, bool) {
+	call, ok := stripConv(x).(*ssa.Call)
+	if !ok || !isBuiltinCall(call, "append") || len(call.Call.Args) != 2 {
+		return nil, 0, false
+	}
+	if sl, ok := call.Call.Args[1].(*ssa.Slice); ok {
+		if a, ok := sl.X.(*ssa.Alloc); ok {
+			if arr, ok := derefType(a.Type()).Underlying().(*types.Array); ok {
+				return call.Call.Args[0], arr.Len(), true
+			}
+		}
+	}
+	return nil, 0, false
+}
+
+// shifted: a throw-away value v - k for bound queries.
+func shifted(v ssa.Value, k int64) ssa.Value {
+	return &ssa.BinOp{Op: token.SUB, X: v, Y: ssa.NewConst(constant.MakeInt64(k), types.Typ[types.Int])}
+}
+
 // ltLen: facts imply v < len(x) (v + off < len(x)).
 func (f *Facts) ltLen(v ssa.Value, x ssa.Value) bool {
+	// x = append(s, k elements): v < len(s)+k ⇐ v-k < len(s)
+	if s0, k, ok := appendBase(x); ok {
+		if f.ltLen(shifted(v, k), s0) {
+			return true
+		}
+	}
 	tv := termOf(v)
 	want := Term{LenPath: accessPath(x), LenVal: x}
 	if tv.IsConst {
@@ -686,6 +751,11 @@ func (f *Facts) ltLenNoEq(v ssa.Value, x ssa.Value) bool {
 
 // leLen: v <= len(x).
 func (f *Facts) leLen(v ssa.Value, x ssa.Value) bool {
+	if s0, k, ok := appendBase(x); ok {
+		if f.leLen(shifted(v, k), s0) {
+			return true
+		}
+	}
 	tv := termOf(v)
 	want := Term{LenPath: accessPath(x), LenVal: x}
 	if tv.IsConst {
